@@ -7,6 +7,7 @@
 package c14chain
 
 import (
+	"context"
 	"fmt"
 	"math/rand"
 	"sort"
@@ -14,6 +15,7 @@ import (
 	"github.com/ipfs/go-cid"
 	cidlink "github.com/ipld/go-ipld-prime/linking/cid"
 	"github.com/rpcpool/yellowstone-faithful/ipld/ipldbindcode"
+	"github.com/rpcpool/yellowstone-faithful/iplddecoders"
 	"github.com/rpcpool/yellowstone-faithful/zzverif/cargen"
 )
 
@@ -373,6 +375,9 @@ func (c *Chain) View(f Fault, other *Chain) View {
 			return v
 		}
 		uf := c.Frames[f.U]
+		if c.isAncestor(f.T, f.U) {
+			return v // the second link to T would sit below T: a cycle, which is outside the fault list
+		}
 		p := c.Frames[uf.Parent]
 		var nl []cid.Cid
 		for _, j := range p.Kids {
@@ -434,6 +439,16 @@ func (c *Chain) View(f Fault, other *Chain) View {
 	return v
 }
 
+// isAncestor reports whether frame a lies on the path from frame d up to frame 0 (a == d included).
+func (c *Chain) isAncestor(a, d int) bool {
+	for x := d; x >= 0; x = c.Frames[x].Parent {
+		if x == a {
+			return true
+		}
+	}
+	return false
+}
+
 // FaultKinds lists the single-frame faults of the property.
 var FaultKinds = []string{"drop-getter", "drop-link", "dup-link", "dup-replace", "bitflip", "index-alter", "total-alter", "swap-other"}
 
@@ -476,7 +491,7 @@ func (c *Chain) Faults(rng *rand.Rand, dense bool) []Fault {
 		// dup-replace: a leaf u != t
 		var leaves []int
 		for i := 1; i < k; i++ {
-			if i != t && len(c.Frames[i].Kids) == 0 {
+			if i != t && len(c.Frames[i].Kids) == 0 && !c.isAncestor(t, i) {
 				leaves = append(leaves, i)
 			}
 		}
@@ -516,4 +531,48 @@ func (c *Chain) Faults(rng *rand.Rand, dense bool) []Fault {
 func (c *Chain) Signature(fault string) string {
 	shape := fmt.Sprintf("%s/fan=%d", c.Spec.Layout, c.Spec.Fanout)
 	return fmt.Sprintf("k=%d/%s/sum=%s/fault=%s", c.K, shape, c.Spec.Sum, fault)
+}
+
+// Decoded caches the decoded form of stored frames (one goroutine at a time).  An entry is only used
+// while the stored bytes are the very same slice, so frames changed by a fault are decoded afresh.
+// (The repository's frame decoder costs ~100 us per frame; decoding is C11's subject, not C14's.)
+type Decoded map[string]decodedEntry
+
+type decodedEntry struct {
+	b0 *byte
+	df *ipldbindcode.DataFrame
+}
+
+// Getter serves the stored frames of the views the way Epoch.GetDataFrameByCid does after its index
+// lookup: find by CID, decode with the repository's DecodeDataFrame.  cache may be nil.
+func Getter(cache Decoded, fetched *int, views ...*View) func(ctx context.Context, wanted cid.Cid) (*ipldbindcode.DataFrame, error) {
+	return func(ctx context.Context, wanted cid.Cid) (*ipldbindcode.DataFrame, error) {
+		*fetched++
+		if *fetched > 100000 {
+			return nil, fmt.Errorf("c14: fetch budget exhausted")
+		}
+		k := wanted.KeyString()
+		for _, v := range views {
+			if v.Missing[k] {
+				return nil, fmt.Errorf("c14: frame %s is not in the archive", wanted)
+			}
+		}
+		for _, v := range views {
+			b, ok := v.Store[k]
+			if !ok || len(b) == 0 {
+				continue
+			}
+			if cache != nil {
+				if e, ok := cache[k]; ok && e.b0 == &b[0] {
+					return e.df, nil
+				}
+			}
+			df, err := iplddecoders.DecodeDataFrame(b)
+			if err == nil && cache != nil {
+				cache[k] = decodedEntry{b0: &b[0], df: df}
+			}
+			return df, err
+		}
+		return nil, fmt.Errorf("c14: frame %s is not in the archive", wanted)
+	}
 }
